@@ -1,5 +1,5 @@
 use crate::{
-    geometry::Point,
+    geometry::{Dimensions, Point},
     primitives::{
         common::Scanline,
         rounded_rectangle::{RoundedRectangle, RoundedRectangleContains},
@@ -28,10 +28,14 @@ impl Iterator for Points {
     type Item = Point;
 
     fn next(&mut self) -> Option<Self::Item> {
-        self.current_scanline.next().or_else(|| {
+        loop {
+            if let Some(point) = self.current_scanline.next() {
+                return Some(point);
+            }
+
+            // Rows of narrow corner ellipses can be empty.
             self.current_scanline = self.scanlines.next()?;
-            self.current_scanline.next()
-        })
+        }
     }
 }
 
@@ -56,36 +60,36 @@ impl Iterator for Scanlines {
         let columns = self.rounded_rectangle.columns.clone();
         let y = self.rounded_rectangle.rows.next()?;
 
-        let x_start = if y < self.rounded_rectangle.straight_rows_left.start {
-            columns
-                .clone()
-                .find(|x| self.rounded_rectangle.top_left.contains(Point::new(*x, y)))
+        // If a row of a narrow corner ellipse contains no pixel the scanline starts (or ends) at the
+        // straight part next to the corner.
+        let left_corner = if y < self.rounded_rectangle.straight_rows_left.start {
+            Some(&self.rounded_rectangle.top_left)
         } else if y >= self.rounded_rectangle.straight_rows_left.end {
-            columns.clone().find(|x| {
-                self.rounded_rectangle
-                    .bottom_left
-                    .contains(Point::new(*x, y))
-            })
+            Some(&self.rounded_rectangle.bottom_left)
         } else {
             None
-        }
-        .unwrap_or(columns.start);
-
-        let x_end = if y < self.rounded_rectangle.straight_rows_right.start {
+        };
+        let x_start = left_corner.map_or(columns.start, |corner| {
             columns
                 .clone()
-                .rfind(|x| self.rounded_rectangle.top_right.contains(Point::new(*x, y)))
+                .find(|x| corner.contains(Point::new(*x, y)))
+                .unwrap_or_else(|| corner.bounding_box().columns().end)
+        });
+
+        let right_corner = if y < self.rounded_rectangle.straight_rows_right.start {
+            Some(&self.rounded_rectangle.top_right)
         } else if y >= self.rounded_rectangle.straight_rows_right.end {
-            columns.clone().rfind(|x| {
-                self.rounded_rectangle
-                    .bottom_right
-                    .contains(Point::new(*x, y))
-            })
+            Some(&self.rounded_rectangle.bottom_right)
         } else {
             None
-        }
-        .map(|x| x + 1)
-        .unwrap_or(columns.end);
+        };
+        let x_end = right_corner.map_or(columns.end, |corner| {
+            columns
+                .clone()
+                .rfind(|x| corner.contains(Point::new(*x, y)))
+                .map(|x| x + 1)
+                .unwrap_or_else(|| corner.bounding_box().columns().start)
+        });
 
         Some(Scanline::new(y, x_start..x_end))
     }
